@@ -174,7 +174,12 @@ func c15Check(ci interface{}) lib.Outcome {
 			for l, r := 0, len(w)-1; l < r; l, r = l+1, r-1 {
 				w[l], w[r] = w[r], w[l]
 			}
-			decoy = append(decoy, licFile{f.Name, fmt.Sprintf("decoy %d license software ", i) + strings.Join(w, " ")})
+			if i%2 == 0 {
+				// same words in reverse order: same file name, same length, other text
+				decoy = append(decoy, licFile{f.Name, strings.Join(w, " ") + "\n"})
+			} else {
+				decoy = append(decoy, licFile{f.Name, fmt.Sprintf("decoy %d license software ", i) + strings.Join(w, " ")})
+			}
 		}
 		if darch, err := buildArchive(decoy); err == nil {
 			if d, err := lc.New(c.Thr, lc.ArchiveBytes(darch)); err == nil {
